@@ -1005,7 +1005,7 @@ func (s *SecureChannel) sendAsyncWithTimeout(
 	authToken *ua.NodeID,
 	respRequired bool,
 	timeout time.Duration,
-) (<-chan *MessageBody, error) {
+) (_ <-chan *MessageBody, err error) {
 
 	instance.Lock()
 	defer instance.Unlock()
@@ -1030,6 +1030,14 @@ func (s *SecureChannel) sendAsyncWithTimeout(
 
 		s.handlers[reqID] = resp
 		s.handlersMu.Unlock()
+
+		// nobody waits for the response if the request could not be sent.
+		// Release the handler again. Otherwise, it stays registered forever.
+		defer func() {
+			if err != nil {
+				s.popHandler(reqID)
+			}
+		}()
 	}
 
 	chunks, err := m.EncodeChunks(instance.maxBodySize)
@@ -1245,8 +1253,11 @@ func mergeChunks(chunks []*MessageChunk) ([]byte, error) {
 
 	var b []byte
 	var seqnr uint32
-	for _, c := range chunks {
-		if c.SequenceHeader.SequenceNumber == seqnr {
+	for i, c := range chunks {
+		// a sequence number may legitimately be 0 (Part 6, 6.7.2.4: the first
+		// number after a roll over is any value below 1024), so the first
+		// chunk is never a duplicate
+		if i > 0 && c.SequenceHeader.SequenceNumber == seqnr {
 			continue // duplicate chunk
 		}
 		seqnr = c.SequenceHeader.SequenceNumber
